@@ -80,9 +80,12 @@ def main(argv):
             name=master.output_ufo, location=location, font=ufo
         )
 
-    # build a variable TTFont from the designspace document
-    # TODO: Use ufo2ft.compileVariableCFF2 for CFF
-    vf = ufo2ft.compileVariableTTF(designspace)
+    # build a variable TTFont from the designspace document;
+    # the output file name decides the outline flavour, as for static fonts
+    if font_config.output_format == ".otf":
+        vf = ufo2ft.compileVariableCFF2(designspace)
+    else:
+        vf = ufo2ft.compileVariableTTF(designspace)
     if not font_config.keep_glyph_names:
         vf["post"].formatType = 3  # no glyph names, same as static fonts
     vf.save(font_config.output_file)
